@@ -130,6 +130,28 @@ def r_key_check_memoised(r, prog):
     r.floor(2)
 
 
+def r_generator_output_drained(r, prog):
+    """The compiler waits for a generator with wait_with_output(), which drains the generator's stdout and stderr while waiting. Waiting for the
+    exit first (wait / try_wait) and reading the pipes afterwards deadlocks as soon as a reply exceeds the pipe buffer: the generator blocks
+    writing, the compiler blocks waiting."""
+    n = 0
+    for f in prog.fns.values():
+        if f.crate.tag != 'slicec_bin' or f.generated:
+            continue
+        for c in f.calls():
+            res = (c.resolved or c.callee or '')
+            if f.blocks[c.bb].get('cleanup') or 'process::Child' not in res:
+                continue
+            n += 1
+            if c.name() in ('wait', 'try_wait', 'kill'):
+                r.finding('generator-waited-for-without-draining:%s' % f.name, c.span, '%s calls Child::%s: with piped stdout/stderr the generator must be waited for with wait_with_output()' % (f.path, c.name()))
+            else:
+                r.ok('%s: Child::%s' % (f.name, c.name()))
+    if n < 1:
+        raise AnchorMissing('uses of std::process::Child in the binary')
+    r.floor(1)
+
+
 def _option_branches(f, names):
     """branches on the Option returned by a lookup (`if let Some(x) = table.get(k)`): dict(bb, call, some, none)"""
     out = []
@@ -484,6 +506,8 @@ def run(ctx):
     ctx.run_rule('C01.2h', 'T8', 'the base closure of an interface is memoised: one expansion per interface, not one per inheritance path', r_base_closure_memoised, prog)
     from props import c03 as _c03
     ctx.run_rule('C01.1c', 'T1', 'the entry of a primitive type in the name table is never replaced (the parser unwraps its lookup of a primitive: argument of that panic-ledger entry)', _c03.r_name_table_single_writer, prog)
+    ctx.run_rule('C01.8', 'T1', 'a generator is waited for while its output is drained (no wait-then-read deadlock on large replies)', r_generator_output_drained, prog)
+    ctx.run_rule('C01.2j', 'T5', 'the containment-cycle search scans every field of every container (a field it skips can close a cycle the recursive validators then walk for ever)', c05.r_container_coverage, prog)
     ctx.run_rule('C01.2i', 'T8', 'the dictionary key check looks at each struct once per dictionary, not once per path to it', r_key_check_memoised, prog)
     ctx.run_rule('C01.2f', 'T10', 'fresh search state per root; candidates scan on every path (argument of SCCs all_base_interfaces, cycle_detector)', c05.r_search_state_and_identity, prog)
     ctx.run_rule('C01.2g', 'T8', 'the reference directory walk enters every directory once (argument of SCC directory_walk)', _c17.r_directory_walk_once, prog)
